@@ -41,9 +41,34 @@ def _extend(children):
 values = st.recursive(scalars, _extend, max_leaves=10)
 
 
+def _recase(draw_bits, name):
+    return "".join(c.upper() if (draw_bits >> i) & 1 else c for i, c in enumerate(name))
+
+
+# reserved underscore-prefixed names in any spelling of upper/lower case: they need not survive (the
+# statement excludes them) but a user header carrying one must not disturb the round trip of the table
+reserved_keys = st.tuples(st.sampled_from(sorted(RESERVED)), st.integers(0, 2 ** 12 - 1)).map(
+    lambda t: _recase(t[1], t[0]))
+reserved_values = st.one_of(st.sampled_from([",", ":", " ", "\t", None, 0, 1, 7, 99, -1, "junk", (2,), [("q", "<f4")], True,
+                                             False, "1.0"]), scalars)
+
+
+@st.composite
+def _header_dicts(draw):
+    d = draw(st.dictionaries(keys, values, min_size=0, max_size=8))
+    if draw(st.integers(0, 5)) == 0:
+        for _ in range(draw(st.integers(1, 2))):
+            d[draw(reserved_keys)] = draw(reserved_values)
+    return enc(d)
+
+
 def headers():
     """strategy of encoded header dicts (or None for 'no header')"""
-    return st.one_of(st.none(), st.dictionaries(keys, values, min_size=0, max_size=8).map(enc))
+    return st.one_of(st.none(), _header_dicts())
+
+
+def is_reserved(key):
+    return isinstance(key, str) and key.lower() in RESERVED
 
 
 def equal_typed(a, b):
@@ -67,6 +92,8 @@ def labels(hdr):
         return labs
     if not hdr:
         labs.add("hdr:empty")
+    if any(is_reserved(k) for k in hdr):
+        labs.add("hdr:reserved-name-given")
 
     def walk(v, depth):
         if isinstance(v, str):
